@@ -230,6 +230,7 @@ fn build_tree(seed: u64, case: u64, dir: &Path) -> Result<TreeSpec, String> {
     let mut history = ops::gen_history(&mut rng, &p, &uni, &cfg.thresholds());
     history.push(Op::Flush { rotate: true, wm: 0 });
     let opts = InstOpts {
+            detached: false,
         filter_seed: None,
         shared: None,
         obs_seed: 1,
